@@ -149,7 +149,11 @@ class World:
         self.conds["c3"] = "never-registered-condition"
         from pynenc.trigger.trigger_builder import TriggerBuilder
         self.triggered = app.task(vt.noop)
-        app.trigger.register_task_triggers(self.triggered, TriggerBuilder().on_event("evt").with_logic("or"))
+        self.builders = {0: (self.triggered, lambda: TriggerBuilder().on_event("evt").with_logic("or")),
+                         1: (self.tasks[1], lambda: TriggerBuilder().on_event("evt").with_args_static({"x": 1, "y": 2}))}    # two tasks on ONE condition
+        for t, mk in self.builders.values():
+            app.trigger.register_task_triggers(t, mk())
+        self.event_cond = next((c.condition_id for c in app.trigger._get_all_conditions() if type(c).__name__ == "EventCondition"), "no-event-condition")
         self.registered = set()       # labels of invocations registered so far (the same on both sides)
         self.tainted = ""             # out-of-protocol step taken earlier in this sequence (marks later divergences)
 
@@ -275,6 +279,10 @@ def operations():
     op("valid_conditions", lambda r: (), lambda w, a: call(lambda: len(w.app.trigger.get_valid_conditions())))
     op("trigger_iteration", lambda r: (), lambda w, a: call(lambda: (w.app.trigger.trigger_loop_iteration(),
                                                                      w.app.orchestrator.count_invocations(w.triggered.task_id), len(w.app.trigger.get_valid_conditions()))[1:]))
+    op("clean_trigger_defs", lambda r: (r.choice([0, 1]),), lambda w, a: call(lambda: w.app.trigger.clean_task_trigger_definitions(w.builders[a[0]][0].task_id)))
+    op("reregister_triggers", lambda r: (r.choice([0, 1]),), lambda w, a: call(lambda: w.app.trigger.register_task_triggers(w.builders[a[0]][0], w.builders[a[0]][1]())))
+    op("triggers_for_condition", lambda r: (), lambda w, a: call(lambda: sorted(str(getattr(t, "task_id", None) or getattr(t, "task_id_key", t))
+                                                                                 for t in w.app.trigger.get_triggers_for_condition(w.event_cond))))
     op("tick", lambda r: (r.choice([0.5, 10.0, 70.0]),), lambda w, a: ("ok", None))
     return ops_
 
@@ -557,6 +565,9 @@ def differential(ctx: RunCtx) -> BoundedResult:
                 ("wait", (2, [0])), ("wait", (3, [2])), ("blocking", (10,)), ("tick", (70.0,)), ("auto_purge", ()), ("blocking", (10,)), ("count", (None, None))],
             "retry-bookkeeping": reg_all + [("set_status", (1, "PENDING", "r2")), ("set_status", (1, "RUNNING", "r2")), ("set_status", (1, "RETRY", "r2")),
                                             ("incr_retries", (1,)), ("incr_retries", (1,)), ("set_status", (1, "PENDING", "r1")), ("tick", (10.0,)), ("pending_recovery", ())],
+            "shared-condition-trigger-definitions": [("triggers_for_condition", ()), ("clean_trigger_defs", (0,)), ("triggers_for_condition", ()), ("emit", (1,)),
+                                                     ("trigger_iteration", ()), ("reregister_triggers", (0,)), ("triggers_for_condition", ()), ("clean_trigger_defs", (1,)),
+                                                     ("triggers_for_condition", ()), ("emit", (0,)), ("trigger_iteration", ())],
             "cron-cas-sequence": [("cron_cas", ("c1", 0, "none")), ("cron_cas", ("c1", 60, "none")), ("cron_cas", ("c1", 60, "stored")), ("cron_get", ("c1",)),
                                   ("cron_cas", ("c1", 0, "other")), ("cron_cas", ("c1", 0, "uncond")), ("cron_get", ("c1",))],
             "heartbeats-and-dead-owner": reg_all + [("heartbeat", (["r1", "r2"], True)), ("set_status", (0, "PENDING", "r1")), ("set_status", (0, "RUNNING", "r1")),
